@@ -109,6 +109,13 @@ def run(ctx):
         and not req.startswith("accept-names")
     n = 600 if ctx.tier == "quick" else 100000
     ctx.differential("c06", n, nontrivial=nontrivial, timeout=3000)
+    if ctx.tier == "thorough":
+        # all functions again with other operand samples / near misses
+        base = ctx.seed
+        for k in (1, 2):
+            ctx.seed = base * 1000003 + k
+            ctx.differential("c06", n, tag=f"-s{k + 1}", nontrivial=nontrivial, timeout=3000)
+        ctx.seed = base
     regenerate_tables(ctx)
 
     ctx.coverage["rule"] = (
